@@ -1,6 +1,8 @@
 package main
 
 import (
+	"runtime/debug"
+	"os"
 	"fmt"
 	"go/token"
 	"go/types"
@@ -74,7 +76,13 @@ func (ex *Exec) hasDefers(st *State) bool {
 func (ex *Exec) unwind(st *State) bool {
 	for {
 		fr := st.top()
+		if os.Getenv("FVC_DEBUGPANIC") != "" {
+			fmt.Fprintf(os.Stderr, "DEBUGPANIC unwind frames=%d top=%s isDefer=%v defers=%d recovered=%v\n", len(st.frames), fr.fn.Name(), fr.isDefer, len(fr.defers), st.recovered)
+		}
 		if fr.isDefer {
+			if os.Getenv("FVC_DEBUGPANIC") != "" {
+				debug.PrintStack()
+			}
 			// panic inside a deferred function: propagates; treat as end of path
 			return true
 		}
@@ -138,6 +146,14 @@ func (ex *Exec) doReturn(st *State, fr *Frame, in *ssa.Return) bool {
 	}
 	if len(st.frames) == 1 {
 		// root: check postconditions
+		if os.Getenv("FVC_DEBUGPANIC") != "" && strings.Contains(strings.Join(st.path, " "), "panic-in") {
+			fmt.Fprintf(os.Stderr, "DEBUGPANIC return on path %s pc=%d\n", strings.Join(st.path, " "), len(st.pc))
+			for _, t := range st.pc {
+				if len(t.S) < 200 {
+					fmt.Fprintf(os.Stderr, "   pc: %s\n", t.S)
+				}
+			}
+		}
 		extra := map[string]Val{}
 		sig := fr.fn.Signature
 		for i, r := range results {
